@@ -1,5 +1,5 @@
 (* C11 — Deleted and paused sets are left alone, and a pause is lossless.  Statements only. *)
-From ASTS Require Import Base Slots Names World Reconcile ReconcileProofs ExampleWorld.
+From ASTS Require Import Base Slots Names World Reconcile ReconcileProofs Env PauseProofs ExampleWorld.
 
 (* (1) paused: for every API state, cache and fault oracle the reconcile issues NO call at all (no
    write and no live read), succeeds, and leaves the API state as it was — whatever the pods look like *)
@@ -10,9 +10,49 @@ Theorem C11_paused_reconcile_is_the_identity :
 Proof. exact reconcile_paused. Qed.
 Print Assumptions C11_paused_reconcile_is_the_identity.
 
-(* losslessness: since a paused reconcile is the identity on the world and keeps no state, a run with a
-   paused window IS the run in which no reconcile was scheduled during that window; what happens after the
-   flag is lowered is C02 applied to the state at that moment. *)
+(* (1b) LOSSLESSNESS, over histories of the environment model (Env.v: reconciles with any fault oracle, kubelet events,
+   cache refreshes of any kind, edits of the set — the model that props/c02.py compares with the real controller after
+   every operation).  Every reconcile that runs while the CACHED set carries the annotation can be struck from the
+   history: API state and caches evolve exactly as if it had never been scheduled (PauseProofs.v).  So a run with a
+   paused window, whatever precedes and follows it, IS the run in which no reconcile happened during the window; what
+   happens after the annotation is removed is C02 applied to the state at that moment. *)
+Theorem C11_pause_window_is_lossless :
+  forall hashes before window after w,
+    reconciles_paused hashes (hrun hashes w before) window ->
+    hrun hashes w (before ++ window ++ after)
+    = hrun hashes w (before ++ filter (fun op => negb (is_reconcile op)) window ++ after).
+Proof. exact pause_window_is_lossless. Qed.
+Print Assumptions C11_pause_window_is_lossless.
+
+Theorem C11_paused_reconcile_logs_nothing :
+  forall hashes w f, cache_paused w -> snd (hstep hashes w (HReconcile f)) = Some (OOk, []).
+Proof. exact paused_reconcile_logs_nothing. Qed.
+Print Assumptions C11_paused_reconcile_logs_nothing.
+
+(* non-vacuity: the set is paused, the user scales it in with a delete slot during the pause, the controller is woken
+   three times (once with a fault oracle), a pod fails; then the pause is removed.  The three reconciles of the window
+   can be struck; while paused the pods are untouched; after the un-pause the controller acts. *)
+Definition pw_set := ex_set 3 None "Parallel" 1 0 (ex_status 3 "web-h1" "web-h1").
+Definition pw_w0 : hworld :=
+  {| hw_api := ex_world pw_set ex_healthy3 [ex_rev "web-h1" 1 1]; hw_cache := ex_world pw_set ex_healthy3 [ex_rev "web-h1" 1 1] |}.
+Definition pw_before := [HEdit (EPause (Some "true"%string)); HRefresh].
+Definition pw_window := [HReconcile []; HEdit (ESlots (Some "[1]"%string)); HRefreshSet; HReconcile [(FAt 0%nat, FConflict)];
+                         HKubelet "web-2" KFail; HRefresh; HReconcile []].
+Definition pw_after := [HEdit (EPause None); HRefresh; HReconcile []].
+Example C11_ex_window_hypothesis : reconciles_paused ex_hashes (hrun ex_hashes pw_w0 pw_before) pw_window.
+Proof.
+  cbn [pw_window reconciles_paused is_reconcile].
+  repeat split; try (intros H; discriminate H); intros _; eexists; (split; [vm_compute; reflexivity | reflexivity]).
+Qed.
+Example C11_ex_window :
+  hrun ex_hashes pw_w0 (pw_before ++ pw_window ++ pw_after)
+  = hrun ex_hashes pw_w0 (pw_before ++ [HEdit (ESlots (Some "[1]"%string)); HRefreshSet; HKubelet "web-2" KFail; HRefresh] ++ pw_after)
+  /\ map p_name (w_pods (hw_api (hrun ex_hashes pw_w0 (pw_before ++ pw_window)))) = ["web-0"; "web-1"; "web-2"]%string
+  /\ map p_name (w_pods (hw_api (hrun ex_hashes pw_w0 (pw_before ++ pw_window ++ pw_after)))) <> ["web-0"; "web-1"; "web-2"]%string.
+Proof.
+  split; [exact (pause_window_is_lossless ex_hashes pw_before pw_window pw_after pw_w0 C11_ex_window_hypothesis)|].
+  split; [vm_compute; reflexivity | vm_compute; discriminate].
+Qed.
 
 (* (2) the flag is exactly the annotation value "true" *)
 Theorem C11_pause_flag : forall v, get_paused (Some v) = true <-> v = "true"%string.
